@@ -12,6 +12,7 @@
 #include <string.h>
 #include <unistd.h>
 #include <math.h>
+#include <locale.h>
 #include "cjv_vm.h"
 
 cJSON *slot[NSLOT];
@@ -189,6 +190,7 @@ static void op_create(toks *t)
     else if (!strcmp(op, "craw")) { char *s; ARGN(2); s = tk_str(T(2)); LIB_BEGIN("cJSON_CreateRaw"); r = cJSON_CreateRaw(s); LIB_END(); xfree(s); }
     else if (!strcmp(op, "carr")) { LIB_BEGIN("cJSON_CreateArray"); r = cJSON_CreateArray(); LIB_END(); }
     else if (!strcmp(op, "cobj")) { LIB_BEGIN("cJSON_CreateObject"); r = cJSON_CreateObject(); LIB_END(); }
+    else if (!strcmp(op, "cstrref") && t->n > 2 && T(2)[0] == '~') { LIB_BEGIN("cJSON_CreateStringReference"); r = cJSON_CreateStringReference(NULL); LIB_END(); }
     else if (!strcmp(op, "cstrref")) { char *s; const char *b; ARGN(2); s = tk_str(T(2)); b = bor_add(s, strlen(s) + 1); LIB_BEGIN("cJSON_CreateStringReference"); r = cJSON_CreateStringReference(b); LIB_END(); xfree(s); }
     else if (!strcmp(op, "cobjref")) { ARGN(2); LIB_BEGIN("cJSON_CreateObjectReference"); r = cJSON_CreateObjectReference(tk_item(T(2))); LIB_END(); }
     else if (!strcmp(op, "carrref")) { ARGN(2); LIB_BEGIN("cJSON_CreateArrayReference"); r = cJSON_CreateArrayReference(tk_item(T(2))); LIB_END(); }
@@ -614,6 +616,13 @@ static void op_slot(toks *t)
         set_slot(T(1), r);
         rptr(r);
     }
+    else if (!strcmp(op, "setloc")) {  /* setloc 1|0 : switch LC_NUMERIC to the comma-decimal test locale / back to C */
+        const char *r;
+        ARGN(1);
+        r = setlocale(LC_NUMERIC, tk_int(T(1)) ? "xx_COMMA" : "C");
+        if (r && tk_int(T(1))) { struct lconv *lc = localeconv(); rlog("setloc %s", (lc && lc->decimal_point[0] == ',') ? "comma" : "unavailable"); }
+        else rlog("setloc %s", r ? "C" : "unavailable");
+    }
     else if (!strcmp(op, "settype")) { /* settype s type : driver-side corruption for "invalid item" cases (C12) */
         cJSON *s; ARGN(2); s = tk_item(T(1)); if (s) s->type = (int)tk_int(T(2)); rlog("v");
     }
@@ -658,7 +667,7 @@ static const opent optab[] = {
     {"parse", op_parse}, {"print", op_print}, {"text", op_text}, {"dup", op_dup}, {"cmp", op_cmp},
     {"getp", op_utils}, {"findp", op_utils}, {"patch", op_utils}, {"genp", op_utils}, {"merge", op_utils}, {"genm", op_utils},
     {"sort", op_utils}, {"sortvia", op_utils}, {"addpatch", op_utils}, {"order", op_utils},
-    {"mv", op_slot}, {"clr", op_slot}, {"child", op_slot}, {"build", op_slot}, {"settype", op_slot}, {"setchild", op_slot},
+    {"mv", op_slot}, {"clr", op_slot}, {"setloc", op_slot}, {"child", op_slot}, {"build", op_slot}, {"settype", op_slot}, {"setchild", op_slot},
     {"cfg", op_cfg}, {"onfail", op_onfail}, {"onok", op_onok},
     {"pbat", op_pbat}, {"pstack", op_pstack}, {"prbat", op_prbat}, {"minify", op_minify}, {"dupx", op_dupx}, {"cmpx", op_cmpx},
     {"deepchain", op_deepchain}, {"stackop", op_stackop},
@@ -787,6 +796,7 @@ static int real_main(int argc, char **argv)
             fprintf(cjv_log, "B %ld\n", id);
             fflush(cjv_log);
             mon_alarm(vm_thorough ? 120 : 40);
+            setlocale(LC_NUMERIC, "C");
             apply_cfg(cfg);
             f_active = 0; f_target_failed = 0;
             continue;
